@@ -167,7 +167,14 @@ def run_rules(ctx: Ctx, mod) -> None:
                 raise
         ctx.notes.append(f"analysis stopped early, the violation(s) reported stand on their own: {exc}")
         return
-    refmodels.check(ctx)
+    try:
+        refmodels.check(ctx)
+    except AnalysisError as exc:
+        # a modelled function is gone or unreadable: a violation a path rule has established is reported all the same
+        known = [e for e in load_known(ctx.prop) if e.get("status") == "known"]
+        if not [o for o in ctx.obligations if not o["ok"] and not any(matches(e, o) for e in known)]:
+            raise
+        ctx.notes.append(f"analysis stopped early, the violation(s) reported stand on their own: {exc}")
 
 
 def finish(ctx: Ctx, meta: dict) -> int:
